@@ -27,6 +27,9 @@ def unicode_docs(rng):
     yield ro_delete(90)
 
 
+# what a wrong key finds: a message of another class, another running order
+DECOY = b'<mos><mosID>DECOY</mosID><ncsID>NCS</ncsID><messageID>424242</messageID><roReadyToAir><roID>DECOY</roID><roAir>READY</roAir></roReadyToAir></mos>'
+
 class Check:
     pid = 'C18'
     rule = ('every document of the C08 generator plus Unicode documents, read from a file, a str, bytes and a fake S3 object, in '
@@ -58,10 +61,13 @@ class Check:
                     path = os.path.join(tmp, 'd%d.xml' % k)
                     with open(path, 'wb') as f:
                         f.write(data)
-                    fakes3.install(s3mod, objects={'k.mos.xml': data})
+                    # the object sits under a key with characters that decoding / normalising would change; every such
+                    # variant of the key holds a decoy (another message), so asking for the wrong key never goes unnoticed
+                    key = fakes3.KEY_SHAPES[k % len(fakes3.KEY_SHAPES)]
+                    fakes3.install(s3mod, objects=fakes3.with_decoys({key: data}, DECOY), bucket='b')
                     res = {}
                     for how, fn in (('file', lambda: MosFile.from_file(path)), ('bytes', lambda: MosFile.from_string(data)),
-                                    ('s3', lambda: MosFile.from_s3('b', 'k.mos.xml')),
+                                    ('s3', lambda: MosFile.from_s3('b', key)),
                                     ('str', lambda: MosFile.from_string(text))):
                         try:
                             mo = fn()
@@ -75,7 +81,7 @@ class Check:
                         entry = [getattr(MT, res['str'][1])] + ([MT.ElementAction] if res['str'][1].startswith('EA') else [])
                         for cls_ in entry:
                             for how, fn in (('file', lambda: cls_.from_file(path)), ('bytes', lambda: cls_.from_string(data)),
-                                            ('s3', lambda: cls_.from_s3('b', 'k.mos.xml')), ('str', lambda: cls_.from_string(text))):
+                                            ('s3', lambda: cls_.from_s3('b', key)), ('str', lambda: cls_.from_string(text))):
                                 try:
                                     mo = fn()
                                     r_ = ('ok', type(mo).__name__, str(mo))
@@ -83,13 +89,15 @@ class Check:
                                     r_ = ('err', type(e).__name__)
                                 n += 1
                                 if r_ != res['str']:
-                                    vio.append({'what': '%s.from_%s gives %r, MosFile.from_string gives %r' % (cls_.__name__, how if how != 'bytes' else 'string(bytes)', r_[:2], res['str'][:2]),
-                                                'case': {'kind': 'source', 'text': text, 'encoding': enc, 'entry': cls_.__name__}, 'impl': r_[:2], 'expected': res['str'][:2]})
+                                    vio.append({'what': '%s.from_%s (key %r) gives %r%s, MosFile.from_string gives %r' % (cls_.__name__, how if how != 'bytes' else 'string(bytes)', key, r_[:2],
+                                                        ' with another serialisation' if r_[:2] == res['str'][:2] else '', res['str'][:2]),
+                                                'case': {'kind': 'source', 'text': text, 'encoding': enc, 'entry': cls_.__name__, 'key': key}, 'impl': r_[:2], 'expected': res['str'][:2]})
                     sigs.add(('source', enc, res['str'][:2]))
                     bad = [h for h in ('file', 'bytes', 's3') if res[h] != res['str']]
                     if bad:
-                        vio.append({'what': 'the same content read from %s gives %r, from str %r (encoding %s)' % (bad[0], res[bad[0]][:2], res['str'][:2], enc),
-                                    'case': {'kind': 'source', 'text': text, 'encoding': enc}, 'impl': [res[h][:2] for h in res], 'expected': 'all equal'})
+                        vio.append({'what': 'the same content read from %s (key %r) gives %r%s, from str %r (encoding %s)' % (bad[0], key, res[bad[0]][:2],
+                                            ' with another serialisation' if res[bad[0]][:2] == res['str'][:2] else '', res['str'][:2], enc),
+                                    'case': {'kind': 'source', 'text': text, 'encoding': enc, 'key': key}, 'impl': [res[h][:2] for h in res], 'expected': 'all equal'})
                     # the model classifies the parsed tree the same way
                     try:
                         mo = engine.classify_cases([text])[0]
@@ -98,15 +106,16 @@ class Check:
                     except Exception:
                         pass
             # readers
-            for text in [to_text(d) for d in unicode_docs(rng)]:
+            for rk, text in enumerate([to_text(d) for d in unicode_docs(rng)]):
                 data = text.encode('utf-8')
-                fakes3.install(s3mod, objects={'r.mos.xml': data})
+                rkey = fakes3.KEY_SHAPES[(rk + 1) % len(fakes3.KEY_SHAPES)]
+                fakes3.install(s3mod, objects=fakes3.with_decoys({rkey: data}, DECOY), bucket='b')
                 path = os.path.join(tmp, 'r.xml')
                 with open(path, 'wb') as f:
                     f.write(data)
                 want = MosFile.from_string(text)
                 for how, mk in (('string', lambda: MosReader.from_string(text)), ('file', lambda: MosReader.from_file(path)),
-                                ('s3', lambda: MosReader.from_s3('b', 'r.mos.xml'))):
+                                ('s3', lambda: MosReader.from_s3('b', rkey))):
                     r = mk()
                     n += 1
                     a, b = r.mos_object, r.mos_object
@@ -180,9 +189,10 @@ class Check:
             if case.get('kind') == 'source':
                 enc = case['encoding']
                 data = ('<?xml version="1.0" encoding="%s"?>' % enc + case['text']).encode(enc)
-                fakes3.install(s3mod, objects={'k.mos.xml': data})
+                key = case.get('key', 'k.mos.xml')
+                fakes3.install(s3mod, objects=fakes3.with_decoys({key: data}, DECOY), bucket='b')
                 res = {}
-                for how, fn in (('bytes', lambda: MosFile.from_string(data)), ('s3', lambda: MosFile.from_s3('b', 'k.mos.xml')),
+                for how, fn in (('bytes', lambda: MosFile.from_string(data)), ('s3', lambda: MosFile.from_s3('b', key)),
                                 ('str', lambda: MosFile.from_string(case['text']))):
                     try:
                         mo = fn()
